@@ -837,7 +837,7 @@ static int ec_substitute(char *loc, char *cmd, char *arg, char *txt)
 	for (i = beg; i < end; i++) {
 		char *ln = lbuf_get(xb, i);
 		struct sbuf *r = NULL;
-		while (rstr_find(re, ln, LEN(offs) / 2, offs, r ? RE_NOTBOL : 0) >= 0) {
+		while (rstr_find(re, ln, LEN(offs) / 2, offs, r ? RE_NOTBOL | RE_PREV : 0) >= 0) {
 			if (!r)
 				r = sbuf_make();
 			sbuf_mem(r, ln, offs[0]);
